@@ -9,11 +9,9 @@
 // upstream = initial + another commit.  `git pull` in a rebasing mode re-creates the AI commit on top of upstream: its two lines
 // must still be blamed to the AI session afterwards.
 //
-// On /repo 3dcb2201: 7 pass (the 4 controls, rebase_equals_false_over_config_is_a_merge, pull_rebase_no_is_a_merge,
-// autostash_from_config_keeps_pending_work - the last one only because the rebase migration renames the working log), 7 FAIL:
-//   branch_rebase_config_* (F1), rebase_equals_merges_* / rebase_equals_true_* (F2), no_rebase_then_rebase_* (F3),
-//   rebase_autostash_with_initial_and_checkpoint_attribution (F4), merge_pull_autostash_keeps_pending_work (F5).
-// With fix_1.diff + fix_2.diff + fix_3.diff all 14 pass.
+// On /repo 3dcb2201 (before the repairs): 7 pass, 7 FAIL: branch_rebase_config_* (F1), rebase_equals_merges_* / rebase_equals_true_* (F2),
+//   no_rebase_then_rebase_* (F3), rebase_autostash_with_initial_and_checkpoint_attribution (F4), merge_pull_autostash_keeps_pending_work (F5).
+// REPAIRED in /repo 56a32878 (fix_1), 712d4357 (fix_2), 094fe5b2 (fix_3): all 14 pass.
 // CAUTION when running with a CARGO_TARGET_DIR shared with other jobs: the harness takes <target>/debug/git-ai, which a concurrent
 // build of another source copy replaces.  The results above were taken with a private copy of the binary (a `cargo` stub first in
 // PATH so that the harness does not rebuild, CARGO_TARGET_DIR pointing at the private copy).
